@@ -34,7 +34,11 @@ VARIABLES envs,    \* stack of environments: [params |-> slots held by parameter
           status,  \* "ok" | "panic-full" | "panic-nonlast"
           hist     \* operations so far
 vars == <<envs, loops, status, hist>>
-view == <<envs, loops, status, Len(hist)>>
+\* one witness per abstract state AND per set of exit kinds / last operation used, so that every kind of exit appears
+\* in the middle of emitted schedules, not only at their end
+UsedKinds == {hist[i].kind : i \in {j \in 1..Len(hist) : hist[j].op = "exit"}}
+LastOp == IF hist = <<>> THEN "none" ELSE hist[Len(hist)].op
+view == <<envs, loops, status, Len(hist), UsedKinds, LastOp>>
 
 Top == [params |-> 0, numReg |-> 0]
 
@@ -116,7 +120,7 @@ AtTop(es, ls) == Len(es) = 1 /\ Len(ls) = 0
 Next ==
   /\ \/ \E k \in ParamChoices : Call(k)
      \/ \E reg \in BOOLEAN : Enter(reg)
-     \/ \E kind \in {"end", "break"} : ExitLoop(kind)
+     \/ \E kind \in {"end", "break", "caught"} : ExitLoop(kind)   \* "caught": an error raised in the loop body, caught by catch() just outside the loop
      \/ Return
      \/ ErrorOut
   /\ (AtTop(envs', loops') /\ Len(hist') > 1) => Emit
